@@ -164,3 +164,29 @@ META["C18"] = {
                    "input pre-converted with the harness' own ISO-8859-1 / CP1252 tables; BOM transparency for utf-8. Exploration."),
     "level_note": "Trusted: the hard-coded CP1252 table (from CP1252.TXT). For the five unassigned bytes both U+FFFD and the C1 control are accepted.",
 }
+
+add("C01", "TestC01",
+    rule=("Cases: a transform over (a) one of the 7 built-in formats with well-formed, truncated, overwritten or spliced input "
+          "(gen.Shape + malform), (b) a caller-supplied schema handler registered through omniparser.Extension whose ingester replays a "
+          "generated script of results (record, continuable error, fatal error, io.EOF, bytes together with an error), (c) the jsonlog "
+          "sample custom file format; plus a generated history of Read / RawRecord / RawRecord-twice / burst-of-Reads calls that runs "
+          "well past the terminal result. Oracle: contract automaton (fresh, ok, failed(e), terminal(e)) - trichotomy of every Read result, "
+          "valid UTF-8 JSON, terminal error repeated unchanged, RawRecord gated on the last Read and describing that record (checked on "
+          "pass-through schemas and the scripted handler). Non-trivial: the history has a Read after the terminal result or a RawRecord "
+          "directly after a failed Read; distinct by SHA-256 of the case."),
+    quick={"checks": 3000, "shards": 4, "timeout": 600},
+    thorough={"checks": 30000, "shards": 16, "timeout": 3000},
+    floors={"terminal-non-eof": 0.15, "read-after-terminal": 0.5, "raw-after-fail": 0.05, "mode=scripted": 0.15, "mode=jsonlog": 0.04,
+            "format=csv": 0.05, "format=csv2": 0.05, "format=edi": 0.04, "format=fixed-length": 0.05, "format=fixedlength2": 0.05,
+            "format=json": 0.04, "format=xml": 0.05},
+    assumptions=["which malformed inputs are fatal and which are per-record failures is format policy and not judged here",
+                 "a caller-supplied ingester that returns (nil, nil, nil) or invalid JSON is outside the contract and not generated"])
+
+META["C01"] = {
+    "technique": "stateful property-based testing against a contract automaton (scripted handler + real readers)",
+    "design_ref": "DESIGN.md §5 C01",
+    "level_text": ("Generated call histories over generated (often malformed) inputs for all seven formats, a scripted caller-supplied "
+                   "handler and the jsonlog custom format; every result is judged by a four-state automaton written from the interface "
+                   "documentation. Exploration: histories and inputs are sampled."),
+    "level_note": "Trusted: errs.IsErrTransformFailed as the classifier named by the property; error identity compared with == for comparable errors, type+text otherwise.",
+}
